@@ -28,13 +28,30 @@ RULES["rng"] = ("one session = one seeded history of process-global numpy RNG us
                 "crop_corner, dtype, max_attempts, seed int/None), including repeats of earlier argument sets; run in JIT mode and in "
                 "interpreter mode (NUMBA_DISABLE_JIT=1); non-trivial = at least one successful poisson call judged; distinct = distinct "
                 "fingerprints of (config, compressed action sequence, argument-set classes)")
+RULES["ops"] = ("one session = one seeded plan of 8-40 caller actions over a shared pool: build an operator (every CPU Linop class, "
+                "MRI factories Sense/ConvSense/ConvImage/PtxSpatialExplicit, expression trees up to depth 3, or a combination of pool "
+                "operators so cached .H/.N children are shared), take .H / .N of a pool operator, apply (fresh input in C/Fortran/"
+                "strided/negative-stride layout, the same object again, an equal copy, an earlier output, a captured parameter), "
+                "C-linearity probe with a complex scalar and real or complex inputs, prox call (all Prox classes and nestings), array "
+                "function call (36 public functions), each followed by a ledger check over every caller-owned array; non-trivial = at "
+                "least one library call judged; distinct = distinct fingerprints of (classes touched, compressed action sequence, "
+                "operator signatures)")
 SIMTIME_UNIT = {
+    "ops": "caller actions (no clock in this world; logical steps)",
     "rng": "history actions (no clock in this world; logical steps)",
     "stop": "simulated seconds of the App.run clock (sum of planned clock increments over all reads)",
     "pg": "solver updates (no clock in this world; logical steps)",
     "cg": "solver updates (this world has no clock; logical steps are reported)",
 }
 ASSUMPTIONS = {
+    "ops": [
+        "a call that raises on a shape-valid input is recorded (probes.rejected), not judged: it returns no wrong data",
+        "linearity tolerance 1e-10 when every array is complex double, 1e-4 when any stage is single precision or an input is real (fft casts real input to complex64)",
+        "linearity defects are measured against the largest intermediate result of the tree (terms of sums), so exact cancellation A - B = 0 is not an alarm",
+        "documented output arguments (axpy/xpay y, copyto output) are exempt from the ledger for that call",
+        "operator parameters and inputs are realised from seeds stored in the plan (numpy PCG64), not written out number by number",
+        "stacking axes are generated non-negative (negative axes only raise here; their correctness belongs to C03)",
+    ],
     "rng": [
         "state comparison is exact over numpy's full get_state() tuple",
         "on the error path (ValueError) the state comparison is a probe only: the statement speaks of generating a mask",
